@@ -603,7 +603,8 @@ def main(tier, replay=None):
                 flush()
 
         r = C.run_tlc("MC_DataModel", name, workers=6, simulate=num, depth=depth, gendir=gd,
-                      timeout=3000, heap="6g", on_replay=on_case)
+                      timeout=3000 if tier == "quick" else 14400,      # TLC's clock includes the replay of what it emits
+                      heap="6g", on_replay=on_case)
         cmds.append(r.cmd)
         if r.violation:
             raise C.ToolError("DataModel.tla: %s violated in %s — the reference and the transcription of the "
